@@ -54,6 +54,8 @@ CasesC17(lazy) ==
 (* C15 / C16: the edit catalogue *)
 E1 == Single("k", I("1"))
 E2 == Mk2("k", I("1"), "j", I("2"))
+E3 == Mk2("name", S("app"), "ports", L(<<Single("cp", I("80"))>>))
+E3x == Mk2("name", S("app"), "ports", L(<<Mk2("cp", I("80"), "proto", S("tcp"))>>))
 Base15 == Mk4("a", I("1"), "m", Mk2("x", I("1"), "y", L(<<I("1"), I("2")>>)), "l", L(<<E1, E2, I("3")>>), "s", S("str"))
 SetM(t, k, v) == Put(t, "m", Put(At(t, "m"), k, v))
 Edits(t) ==
@@ -92,7 +94,10 @@ CasesC15(lazy) == {[base |-> Base15, target |-> t] : t \in Targets15}
             \cup {[base |-> Put(Base15, "l", pr[1]), target |-> Put(Base15, "l", pr[2])]
                     : pr \in { <<L(<<E2, E1, I("3")>>), L(<<E2, I("3")>>)>>, <<L(<<E2, EmptyMap, I("3")>>), L(<<E2, I("3")>>)>>,
                                <<L(<<I("3"), E2, E1>>), L(<<I("3"), E2>>)>>, <<L(<<E2, E1, E1>>), L(<<E2, E1>>)>>,
-                               <<L(<<E2, E1>>), L(<<E2, E1, E1>>)>> }}
+                               <<L(<<E2, E1>>), L(<<E2, E1, E1>>)>>,
+                               (* the partial match sits one list deeper: an entry holding a list of maps, edited inside that list *)
+                               <<L(<<E3>>), L(<<E3x>>)>>, <<L(<<E3x>>), L(<<E3>>)>>, <<L(<<E3, E1>>), L(<<E3x, E1>>)>>,
+                               <<L(<<E3, E3x>>), L(<<E3x>>)>>, <<L(<<E3, E3x>>), L(<<E3>>)>>, <<L(<<E1, E3>>), L(<<E1, E3x, E3>>)>> }}
 
 Unrelated == Mk2("q", I("1"), "l", L(<<S("u")>>))
 (* values that print alike but differ in type are different values *)
